@@ -123,7 +123,8 @@ def run(ctx):
         "the schedule points of the verif-hooks instrumentation (before every list mutex acquisition, between pointer "
         "lookup and use) are the only places where the interleaving of list operations matters: between two of them a "
         "thread touches shared list state only under the mutexes it holds (argued from the source, checked by the "
-        "lock-scope extractor for every ErasedList method; not a theorem)",
+        "lock-scope extractor for every function above the lock and exercised by the element-level schedule points of the "
+        "probe element type; in the model: locked_list_untouched_by_other_threads + lock_structure_derived_from_source)",
         "what the hardware / allocator does with a stale pointer is not modelled: the instrumentation reports the stale "
         "use (pointer obtained before a realloc/free event covering its address) instead of performing it",
         "elements are u64 (no element destructor, clone = copy); RawList's Vec semantics (push/extend/swap/contains) is "
@@ -132,10 +133,15 @@ def run(ctx):
     return ctx.finish(
         level="proof",
         rule="every maximal interleaving (at schedule-point granularity, enumerated by stateless depth-first search on the "
-             "real threads) of every case: all pairs of single operations from a 25-operation alphabet over two shared "
-             "lists, then random cases (2 threads x <= 2 ops, every 16th 3 threads x 1 op, quick; 2-3 threads x <= 3 ops and every pair of the 90 programs of <= 2 ops over a 9-operation alphabet, thorough); evaluations = "
+             "real threads) of every case: 164 class representatives first (every operation that walks over elements x "
+             "{relocating push, swap} with element-level schedule points - lists of a probe element type whose Clone / "
+             "PartialEq are schedule points; == over equal lists; concat / + with empty and non-empty operands through "
+             "compiled scripts and directly; every scripted operation x mutator), then all pairs of single operations from "
+             "a 25-operation alphabet over two shared "
+             "lists, then random cases (2 threads x <= 2 ops, every 16th 3 threads x 1 op, every 8th through compiled Roto scripts, quick; 2-3 threads x <= 3 ops and every pair of the 90 programs of <= 2 ops over a 9-operation alphabet, thorough); evaluations = "
              "executed schedules; a class is distinct by (operation kinds per thread, how the schedule ended, whether a "
-             "reallocation happened, whether some thread was blocked)",
+             "reallocation happened, whether some thread was blocked, element flavour: u64 / through scripts / probe elements); "
+             "250 (quick) / 1500 (thorough) random probe-element cases are judged by the property oracle only",
         search=search,
     )
 
